@@ -505,7 +505,7 @@ func (c16) Run(t *testing.T, cs Case, trace bool) *Outcome {
 					}
 				})
 			}
-			if r := s.Settle(3000000); r != simrt.Quiescent {
+			if r := s.Settle(1000000); r != simrt.Quiescent {
 				if ps := s.Panics(); len(ps) > 0 {
 					out.violate("C16/panic", "panic:"+firstLine(ps[0].Value), "task %s panicked: %s\n%s", ps[0].Task, ps[0].Value, ps[0].Stack)
 					return
